@@ -621,10 +621,11 @@ let bound g p e =
           | Some e' -> Nat.eqb e' e
           | None -> false) (negb (p.p_loaded b))) (all_edges g)
 
-(** val apply_load :
-    graph -> (nat -> load option) -> nat -> plan -> (plan * nat list) res **)
+(** val apply_load_gen :
+    bool -> graph -> (nat -> load option) -> nat -> plan -> (plan * nat list)
+    res **)
 
-let apply_load g loads e p =
+let apply_load_gen strict g loads e p =
   match bound g p e with
   | [] -> Ok (p, [])
   | n :: l ->
@@ -647,13 +648,19 @@ let apply_load g loads e p =
                      ((&&)
                        ((&&) ((&&) (chk_evol g l0 p p5) (chk_closed g p5))
                          (chk_sched g p5)) (chk_oclosed g p5))
-                     (chk_walk g p p5 l0.ld_walk)
+                     ((||) (negb strict) (chk_walk g p p5 l0.ld_walk))
                 then Ok (p5, l0.ld_walk)
                 else Forbidden
               | None -> Forbidden)
            | None -> Forbidden)
         | None -> Forbidden)
      | None -> Forbidden)
+
+(** val apply_load :
+    graph -> (nat -> load option) -> nat -> plan -> (plan * nat list) res **)
+
+let apply_load g loads e p =
+  apply_load_gen true g loads e p
 
 (** val edge_finished :
     nat -> graph -> config -> nat list -> (nat -> load option) -> nat -> bool
@@ -835,10 +842,15 @@ let in_build s =
   | PhBuild -> true
   | _ -> false
 
-(** val step_res :
-    graph -> config -> (nat -> load option) -> state -> event -> state res **)
+type ef_type =
+  nat -> graph -> config -> nat list -> (nat -> load option) -> nat -> bool
+  -> bool -> plan -> plan res
 
-let step_res g cfg loads s ev =
+(** val step_res_gen :
+    ef_type -> graph -> config -> (nat -> load option) -> state -> event ->
+    state res **)
+
+let step_res_gen ef g cfg loads s ev =
   let p = s.s_plan in
   (match ev with
    | EvStart (e, prio) ->
@@ -856,8 +868,7 @@ let step_res g cfg loads s ev =
             | None -> p1
           in
           if phony g e
-          then (match edge_finished (plan_fuel g) g cfg prio loads e true
-                        true p2 with
+          then (match ef (plan_fuel g) g cfg prio loads e true true p2 with
                 | Ok p3 ->
                   Ok { s_plan = p3; s_running = s.s_running; s_pending =
                     s.s_pending; s_fa = s.s_fa; s_exit = s.s_exit; s_total =
@@ -920,8 +931,7 @@ let step_res g cfg loads s ev =
              let run' = rem e s.s_running in
              let fin' = S s.s_finished in
              if Nat.eqb code O
-             then (match edge_finished (plan_fuel g) g cfg prio loads e true
-                           true p with
+             then (match ef (plan_fuel g) g cfg prio loads e true true p with
                    | Ok p' ->
                      Ok { s_plan = p'; s_running = run'; s_pending = pend;
                        s_fa = s.s_fa; s_exit = s.s_exit; s_total =
@@ -930,8 +940,7 @@ let step_res g cfg loads s ev =
                        s.s_failed; s_waiting = false; s_phase = s.s_phase }
                    | Forbidden -> Forbidden
                    | OutOfFuel -> OutOfFuel)
-             else (match edge_finished (plan_fuel g) g cfg prio loads e false
-                           true p with
+             else (match ef (plan_fuel g) g cfg prio loads e false true p with
                    | Ok p' ->
                      Ok { s_plan = p'; s_running = run'; s_pending = pend;
                        s_fa = (pred s.s_fa); s_exit = code; s_total =
@@ -985,6 +994,12 @@ let step_res g cfg loads s ev =
                s_failed = s.s_failed; s_waiting = false; s_phase = PhExited }
         else Forbidden
       | PhExited -> Forbidden))
+
+(** val step_res :
+    graph -> config -> (nat -> load option) -> state -> event -> state res **)
+
+let step_res =
+  step_res_gen edge_finished
 
 (** val step :
     graph -> config -> (nat -> load option) -> state -> event -> state option **)
